@@ -177,10 +177,11 @@ func registerIOModels(e *Engine) {
 		w, p := c.args[0], c.args[1]
 		key := e.objKey(w)
 		fails := c.nondet("wfail")
-		n := Fresh("wn", IntS)
-		c.axiom(And(Le(IntT(0), n), Le(n, StrLen(p))))
-		c.axiom(Implies(Not(fails), Eq(n, StrLen(p))))
-		c.axiom(Implies(fails, Lt(n, StrLen(p)))) // conforming writer: short write <=> error
+		wn := Fresh("wn", IntS)
+		c.axiom(Le(IntT(0), wn))
+		c.axiom(Implies(fails, Lt(wn, StrLen(p))))
+		// conforming writer: short write <=> error
+		n := Ite(fails, wn, StrLen(p))
 		c.setFailed(fails)
 		out := e.ghostGet(c.st, "out", StringS, key)
 		e.ghostSet(c.st, "out", StringS, key, Concat(out, Ite(fails, StrSubstr(p, IntT(0), n), p)))
@@ -247,6 +248,12 @@ func registerIOModels(e *Engine) {
 			key := e.objKey(c.args[0])
 			return Concat(c.args[1], uf(kind, StringS, e.ghostGet(c.rd, "fed", StringS, key)))
 		}
+	}
+	// a hash supplied by the caller: what it was fed is the "out" ghost of the
+	// caller-supplied writer model; the sum is a function of that
+	m["ext:hash.Hash.Sum"] = func(c *CallCtx) *Term {
+		key := e.objKey(c.args[0])
+		return Concat(c.args[1], uf("extHashSum", StringS, e.ghostGet(c.rd, "out", StringS, key)))
 	}
 	m["crypto/md5.Sum"] = func(c *CallCtx) *Term { return uf("md5", StringS, c.args[0]) }
 	m["crypto/sha1.Sum"] = func(c *CallCtx) *Term { return uf("sha1", StringS, c.args[0]) }
